@@ -1,0 +1,44 @@
+//go:build verif
+
+package rollout
+
+import (
+	"github.com/openkruise/rollouts/api/v1beta1"
+	"github.com/openkruise/rollouts/pkg/trafficrouting"
+	"github.com/openkruise/rollouts/pkg/util"
+	"k8s.io/apimachinery/pkg/runtime"
+	"k8s.io/client-go/tools/record"
+	"sigs.k8s.io/controller-runtime/pkg/client"
+	"sigs.k8s.io/controller-runtime/pkg/handler"
+)
+
+// Verification hooks (build tag verif): constructors that wire the reconciler and its event
+// handlers the way SetupWithManager does, but without a manager.
+
+func NewReconcilerForVerif(cli client.Client, scheme *runtime.Scheme, recorder record.EventRecorder) *RolloutReconciler {
+	r := &RolloutReconciler{Client: cli, Scheme: scheme, Recorder: recorder}
+	r.finder = util.NewControllerFinder(cli)
+	r.trafficRoutingManager = trafficrouting.NewTrafficRoutingManager(cli)
+	r.canaryManager = &canaryReleaseManager{Client: cli, trafficRoutingManager: r.trafficRoutingManager, recorder: recorder}
+	r.blueGreenManager = &blueGreenReleaseManager{Client: cli, trafficRoutingManager: r.trafficRoutingManager, recorder: recorder}
+	return r
+}
+
+func NewWorkloadEventHandlerForVerif(reader client.Reader, scheme *runtime.Scheme) handler.EventHandler {
+	return &enqueueRequestForWorkload{reader: reader, scheme: scheme}
+}
+
+func NewBatchReleaseEventHandlerForVerif(reader client.Reader) handler.EventHandler {
+	return &enqueueRequestForBatchRelease{reader: reader}
+}
+
+func SetDefaultGracePeriodSecondsForVerif(s int32) { defaultGracePeriodSeconds = s }
+
+// NextCanaryTaskForVerif / NextBlueGreenTaskForVerif expose the finalising task chains.
+func NextCanaryTaskForVerif(reason string, currentTask v1beta1.FinalisingStepType) v1beta1.FinalisingStepType {
+	return nextCanaryTask(reason, currentTask)
+}
+
+func NextBlueGreenTaskForVerif(reason string, currentTask v1beta1.FinalisingStepType) v1beta1.FinalisingStepType {
+	return nextBlueGreenTask(reason, currentTask)
+}
